@@ -9,7 +9,7 @@ import time
 from collections import Counter
 from fractions import Fraction
 
-from ..common import Run, TimeLimit, chunked, rotate, run_pool
+from ..common import cap_findings, too_many, Run, TimeLimit, chunked, rotate, run_pool
 
 ASSIGN_ALPHABET = ["a", "B", "i", "1", "0", ".", "e", "(", ")", ",", "=", "+", "-", "*", " "]
 FORMAT_ALPHABET = ["d", "s", "0", "1", "2", ":", "A", "_"]
@@ -162,9 +162,9 @@ def work_strings(unit):
                 else:
                     check_format_string(s, False, findings, stats)
                     check_format_string(s, True, findings, stats)
-                if len(findings) > 30:
+                if too_many(findings):
                     break
-    return {"stats": dict(stats), "findings": findings[:40], "n": n, "samples": samples, "wall": time.time() - t0}
+    return {"stats": dict(stats), "findings": cap_findings(findings), "n": n, "samples": samples, "wall": time.time() - t0}
 
 
 # ------------------------------------------------------------------------------ trees
@@ -338,11 +338,11 @@ def work_trees(unit):
                                 stats["meanings compared"] += 1
                         if len(samples) < 1 and nl == 3 and red is not None:
                             samples.append({"sentence": s, "tree": tree, "value": str(eval_ast(got.expression, env))})
-                if len(findings) > 30:
+                if too_many(findings):
                     break
-            if len(findings) > 30:
+            if too_many(findings):
                 break
-    return {"stats": dict(stats), "findings": findings[:40], "n": n, "samples": samples, "wall": time.time() - t0}
+    return {"stats": dict(stats), "findings": cap_findings(findings), "n": n, "samples": samples, "wall": time.time() - t0}
 
 
 # ------------------------------------------------------------------- validation & probes
